@@ -68,7 +68,7 @@ const (
 )
 
 func (prop) Drive(d *core.Driver) error {
-	d.T.Rule = "cases = (fault kind × placement) programs and templates built from the tables in gen/faultprog, (context × value-batch) templates showing dictionary values through an `any` global, and URL-attribute part sequences run with every tuple of shown values (all sequences up to length 2 in quick / 3 in thorough, seeded samples of longer ones); every program is additionally run with an already-cancelled context. A case is judged by the host-panic sentinel and the class of Run's result. distinct_nontrivial counts distinct (kind, fault-or-context, placement-or-value, outcome class) signatures in which interpreted code actually failed or a value was actually rendered"
+	d.T.Rule = "cases = (fault kind × placement) programs and templates built from the tables in gen/faultprog, (context × value-batch) templates showing dictionary values through an `any` global, and URL-attribute part sequences run with every tuple of shown values (all sequences up to length 2 in quick / 3 in thorough, seeded samples of longer ones); every program is run four times: twice without context, with a context that is never cancelled and with an already-cancelled context. A case is judged by the host-panic sentinel and the class of Run's result. distinct_nontrivial counts distinct (kind, fault-or-context, placement-or-value, outcome class) signatures in which interpreted code actually failed or a value was actually rendered"
 	d.T.Assumptions = []string{
 		"natives supplied by the harness panic only with non-runtime-error values; a runtime.Error raised inside host code is the host's own fault and not generated",
 		"unbounded recursion/allocation and cyclic host values are excluded by construction",
@@ -415,14 +415,19 @@ func workProg(cd caseData) core.Result {
 	}
 	res := core.Result{Status: core.OK, Counts: map[string]int64{}}
 	pl, ft := faultOf(cd.Label)
-	// run 1: plain; run 2: same program again (Program.Run is reusable); run 3: cancelled context
-	for run := 0; run < 3; run++ {
+	// run 0: plain; run 1: same program again (Program.Run is reusable); run 2: context
+	// that is never cancelled (channel operations then select on its done channel);
+	// run 3: already cancelled context
+	for run := 0; run < 4; run++ {
 		*log = *fp.NewLog()
 		var ctx context.Context
 		opts := &scriggo.RunOptions{Print: func(v any) { log.Add("P") }}
-		if run == 2 {
+		if run >= 2 {
 			c, cancel := context.WithCancel(context.Background())
-			cancel()
+			if run == 3 {
+				cancel()
+			}
+			defer cancel()
 			ctx = c
 			opts.Context = c
 		}
